@@ -147,7 +147,8 @@ def final_uses(rep, w, li, G, bestk_name, k, first_after=None):
     """After the loop: subgraph.best_k = winner, and the final build uses it."""
     winner = ("phi", li.lid, bestk_name)
     st = [e for e in w.events if e.kind == "store" and e.target == ("attr", G, "best_k") and e.seq > li.last_seq]
-    ok = len(st) >= 1 and st[0].value == winner and all(s.value == winner for s in st)
+    # (a later `best_k = <best_k as just stored>` - the final build re-installing what it read - changes nothing)
+    ok = len(st) >= 1 and st[0].value == winner and all(s.value in (winner, s.target) for s in st)
     rep.fn("BEST-install", li.fn, "subgraph.best_k = the winning k after the loop", ok,
            f"after the loop best_k receives '{show(st[0].value) if st else 'nothing'}'", line=li.line)
     finals = [e for e in w.events if e.seq > li.last_seq and e.kind == "call" and e.name in ("create_arcs", "calculate_pdf")]
